@@ -369,6 +369,35 @@ func init() {
 		}
 		return m.ctx.BV(uint64(n), 64)
 	})
+	reg("Touch", func(m *Machine, fn *ssa.Function, a []Value) Value {
+		// a model's way of saying "this method writes its receiver": one
+		// same-value write to the first leaf cell of the pointed-to object
+		v := a[0]
+		if i, ok := v.(Iface); ok {
+			v = i.V
+		}
+		p, ok := v.(Ptr)
+		if !ok || p.C == nil || m.writeHook == nil {
+			return nil
+		}
+		c := p.C
+		for depth := 0; c != nil && !c.leaf && depth < 16; depth++ {
+			if len(c.Kids) == 0 {
+				return nil
+			}
+			if c.Kids[0] == nil {
+				if _, isArr := c.T.Underlying().(*types.Array); !isArr {
+					return nil
+				}
+				m.kid(c, 0)
+			}
+			c = c.Kids[0]
+		}
+		if c != nil && c.leaf {
+			m.writeHook(c, c.V, c.V)
+		}
+		return nil
+	})
 	reg("WatchGlobals", func(m *Machine, fn *ssa.Function, a []Value) Value {
 		m.installWriteLog()
 		m.watchGlobals = true
